@@ -661,6 +661,125 @@ def case_nodes(rng, kind):
 
 
 # ----------------------------------------------------------------------------------------------
+# oracle-only streams over the stream and the trace engine (used by C01 and C03; driver ops in mrw/st.go).
+# No Lean model: these lines are judged by the oracle below alone.
+
+ST_IVALS = [(1, 4), (2, 10), (3, 5), (4, 4), (8, 20), (10, 20), (15, 30), (12, 13), (25, 40), (30, 30)]
+
+
+def st_is(line):
+    return line.startswith("strm ") or line.startswith("trc ")
+
+
+def case_st(rng, engine):
+    """engine 'strm' | 'trc': 2-4 batches, each with several series/traces whose time intervals overlap and nest; a tag
+    (stream: in the LAST family) appears only from some batch on; every registered query (windows that start after
+    the maximum of each batch's first series/trace, end before minima, points, sub-sets of ids) is re-issued after
+    every batch, flush and merge"""
+    ids = rng.sample([1, 2, 3, 5] if engine == "strm" else ["a", "b", "c", "d"], rng.randint(2, 4))
+    ids.sort()
+    nb = rng.randint(2, 4)
+    extra_from = rng.randint(1, nb)          # batches >= this one carry the extra tag (nb = never)
+    nfam = rng.choice([1, 2, 3])
+    uid = [0]
+    batches, firstmax, mins = [], [], []
+    for b in range(nb):
+        rows = []
+        for k, i in enumerate(rng.sample(ids, rng.randint(1, len(ids)))):
+            lo, hi = rng.choice(ST_IVALS)
+            tss = sorted({lo, hi} | {rng.randint(lo, hi) for _ in range(rng.randint(0, 3))})
+            for ts in tss:
+                uid[0] += 1
+                v = "%02x" % (0x41 + uid[0] % 20)
+                if engine == "strm":
+                    tags = ["f%d.t%d=%s%02x" % (f, f, v, f) for f in range(nfam)]
+                    if b >= extra_from:
+                        tags.append("f%d.x=%s" % (nfam - 1, v))
+                    rows.append((i, ts, "%s:%d:%d:%s" % (i, ts, uid[0], ",".join(sorted(tags)))))
+                else:
+                    tags = ["t0=%s" % v] + (["x=%s55" % v] if b >= extra_from else [])
+                    rows.append((i, ts, "%s:%d:s%d:%s" % (i, ts, uid[0], ",".join(sorted(tags)))))
+        first = min(r[0] for r in rows)
+        firstmax.append(max(r[1] for r in rows if r[0] == first))
+        mins.append(min(r[1] for r in rows))
+        rng.shuffle(rows)
+        batches.append(rows)
+    hi_all = 45
+    qs = [(ids, 0, hi_all)]
+    for fm in firstmax:
+        qs.append((ids, fm + 1, hi_all))
+        qs.append((rng.sample(ids, rng.randint(1, len(ids))), fm + 1, fm + rng.choice([1, 5, 20])))
+    for m in mins:
+        qs.append((ids, 0, m - 1 if rng.random() < 0.5 else m))
+    for _ in range(2):
+        a, b_ = rng.randint(0, 40), rng.randint(0, 40)
+        qs.append((rng.sample(ids, rng.randint(1, len(ids))), min(a, b_), max(a, b_)))
+    qs = ["Q %s %d %d" % (",".join(str(x) for x in sorted(q[0])), q[1], q[2]) for q in qs]
+    qs = list(dict.fromkeys(qs))
+    if len(qs) > 8:
+        qs = qs[:3] + rng.sample(qs[3:], 5)
+    ops = []
+    for b, rows in enumerate(batches):
+        ops.append("B " + " ".join(r[2] for r in rows))
+        ops += qs
+        if rng.random() < 0.75 or b == nb - 1:
+            ops.append("F")
+            ops += qs
+        if b > 0 and (rng.random() < 0.6 or b == nb - 1):
+            if ops[-len(qs) - 1] != "F":
+                ops.append("F")
+            ops.append("M")
+            ops += qs
+    return "%s ; %s" % (engine, " ; ".join(ops))
+
+
+def st_oracle(line, g):
+    """stream: every query returns exactly the written elements of the series inside the window. trace: every written span
+    of the traces whose timestamp is inside the window is returned, only written spans of these traces are returned,
+    none twice, and an answer never loses a span across a flush/merge. Values exactly as written."""
+    engine = line.split(" ", 1)[0]
+    ops = [o.split() for o in line.split(" ; ")[1:]]
+    outs = g.split(" ; ")
+    if len(outs) != len(ops):
+        return ("violation", "%s table: driver output does not match the ops: %s" % (engine, g[:300]))
+    written = []      # (id, ts, rendered)
+    last = {}
+    for op, o in zip(ops, outs):
+        if o.startswith("PANIC") or o.startswith("CRASH") or o.startswith("ERR") or o == "bad-op":
+            return ("violation", "%s table: op `%s` failed: %s" % (engine, " ".join(op)[:80], o[:300]))
+        if op[0] == "B":
+            for r in op[1:]:
+                p = r.split(":", 3)
+                if engine == "strm":
+                    written.append((p[0], int(p[1]), r))
+                else:
+                    written.append((p[0], int(p[1]), "%s:%s:%s" % (p[0], p[2], p[3])))
+            last = {}
+            continue
+        if op[0] != "Q":
+            continue
+        if not o.startswith("R"):
+            return ("violation", "%s table: query failed: %s" % (engine, o[:200]))
+        got = o.split()[1:]
+        ids, tmin, tmax = set(op[1].split(",")), int(op[2]), int(op[3])
+        if len(set(got)) != len(got):
+            return ("violation", "%s table: `%s` returned an element twice: %s" % (engine, " ".join(op), o[:300]))
+        gs = set(got)
+        must = {w[2] for w in written if w[0] in ids and tmin <= w[1] <= tmax}
+        may = must if engine == "strm" else {w[2] for w in written if w[0] in ids}
+        if not gs <= may:
+            return ("violation", "%s table: `%s` returned something never written like that / outside the query: %s" % (
+                engine, " ".join(op), sorted(gs - may)[:3]))
+        if not must <= gs:
+            return ("violation", "%s table: `%s` does not return written data inside the window: %s" % (engine, " ".join(op), sorted(must - gs)[:3]))
+        key = " ".join(op)
+        if key in last and not last[key] <= gs:
+            return ("violation", "%s table: `%s` lost %s across a flush/merge step" % (engine, key, sorted(last[key] - gs)[:3]))
+        last[key] = gs
+    return None
+
+
+# ----------------------------------------------------------------------------------------------
 # shrinker (delta debugging on rows, then on ops)
 
 def shrink_line(line, still_fails, budget=40):
